@@ -89,6 +89,9 @@ pub fn gzip_wrap(r: &mut Rng, stream: &[u8], plain: &[u8], subset: u8, hostile_f
 }
 
 pub struct ZipOpts {
+    /// how the size fields of the local header are filled: 0 exact, 1 ZIP64 (0xFFFFFFFF + extended
+    /// information extra field), 2 garbage, 3 zero without data descriptor
+    pub size_mode: u8,
     pub name_len: usize,
     pub extra_len: usize,
     pub data_descriptor: bool,
@@ -98,7 +101,8 @@ pub struct ZipOpts {
 
 pub fn zip_wrap(r: &mut Rng, stream: &[u8], plain: &[u8], o: &ZipOpts) -> Vec<u8> {
     let mut v = vec![0x50, 0x4b, 0x03, 0x04];
-    v.extend_from_slice(&20u16.to_le_bytes());
+    let zip64 = o.size_mode == 1;
+    v.extend_from_slice(&(if zip64 { 45u16 } else { 20u16 }).to_le_bytes());
     let flags: u16 = if o.data_descriptor { 0x0008 } else { 0 };
     v.extend_from_slice(&flags.to_le_bytes());
     v.extend_from_slice(&8u16.to_le_bytes());
@@ -109,18 +113,36 @@ pub fn zip_wrap(r: &mut Rng, stream: &[u8], plain: &[u8], o: &ZipOpts) -> Vec<u8
         v.extend_from_slice(&[0; 12]);
     } else {
         v.extend_from_slice(&crc.to_le_bytes());
-        v.extend_from_slice(&(stream.len() as u32).to_le_bytes());
-        v.extend_from_slice(&(plain.len() as u32).to_le_bytes());
+        match o.size_mode {
+            1 => v.extend_from_slice(&[0xff; 8]),
+            2 => {
+                v.extend_from_slice(&(r.next() as u32).to_le_bytes());
+                v.extend_from_slice(&(r.next() as u32).to_le_bytes());
+            }
+            3 => v.extend_from_slice(&[0; 8]),
+            _ => {
+                v.extend_from_slice(&(stream.len() as u32).to_le_bytes());
+                v.extend_from_slice(&(plain.len() as u32).to_le_bytes());
+            }
+        }
     }
+    // ZIP64 extended information: id 0x0001, size 16, uncompressed and compressed size as u64
+    let mut extra: Vec<u8> = vec![];
+    if zip64 {
+        extra.extend_from_slice(&[0x01, 0x00, 16, 0]);
+        extra.extend_from_slice(&(plain.len() as u64).to_le_bytes());
+        extra.extend_from_slice(&(stream.len() as u64).to_le_bytes());
+    }
+    let fill = o.extra_len.saturating_sub(extra.len());
+    extra.extend(r.bytes(fill));
     v.extend_from_slice(&(o.name_len as u16).to_le_bytes());
-    v.extend_from_slice(&(o.extra_len as u16).to_le_bytes());
+    v.extend_from_slice(&(extra.len() as u16).to_le_bytes());
     let name: Vec<u8> = if o.hostile_fields {
         r.bytes(o.name_len)
     } else {
         (0..o.name_len).map(|_| b'a' + r.below(26) as u8).collect()
     };
     v.extend_from_slice(&name);
-    let extra = r.bytes(o.extra_len);
     v.extend_from_slice(&extra);
     v.extend_from_slice(stream);
     if o.data_descriptor {
@@ -189,6 +211,12 @@ pub fn random_cuts(r: &mut Rng, total: usize, n_chunks: usize, allow_empty: bool
     let mut cuts: Vec<usize> = (0..n_chunks.saturating_sub(1))
         .map(|_| if total == 0 { 0 } else { r.usize_below(total + 1) })
         .collect();
+    // chunk boundaries inside the 2-byte zlib header or the 4-byte adler32 (first chunk of 1 byte, last
+    // chunk of 1-3 bytes, ...) are legal PNG and deserve more than their uniform share
+    if total > 8 && n_chunks > 1 && r.chance(1, 3) {
+        let k = r.usize_below(cuts.len());
+        cuts[k] = *r.pick(&[1usize, 2, 3, total - 1, total - 2, total - 3, total - 4, total - 5]);
+    }
     cuts.sort();
     if !allow_empty {
         cuts.dedup();
@@ -255,6 +283,7 @@ pub fn junk_hostile(r: &mut Rng, n: usize) -> Vec<u8> {
             6 => {
                 // zip local header with method 0 (stored) or a wrong method
                 let o = ZipOpts {
+                    size_mode: 0,
                     name_len: r.usize_below(12),
                     extra_len: r.usize_below(12),
                     data_descriptor: false,
@@ -319,6 +348,7 @@ pub fn wrap_stream(r: &mut Rng, s: &Stream, w: u8, hostile_fields: bool) -> (Vec
         }
         2 => {
             let o = ZipOpts {
+                size_mode: *r.pick(&[0u8, 0, 0, 1, 2, 3]),
                 name_len: *r.pick(&[0usize, 1, 8, 30, 300]),
                 extra_len: *r.pick(&[0usize, 0, 4, 28, 300]),
                 data_descriptor: r.chance(1, 3),
@@ -326,14 +356,19 @@ pub fn wrap_stream(r: &mut Rng, s: &Stream, w: u8, hostile_fields: bool) -> (Vec
                 hostile_fields,
             };
             let v = zip_wrap(r, &s.bytes, &s.plain, &o);
-            let off = 30 + o.name_len + o.extra_len;
+            let extra_len = u16::from_le_bytes([v[28], v[29]]) as usize;
+            let off = 30 + o.name_len + extra_len;
             (
                 v,
                 off,
                 s.bytes.len(),
                 format!(
-                    "zip name={} extra={} dd={} cd={}",
-                    o.name_len, o.extra_len, o.data_descriptor, o.central_dir
+                    "zip sizes={} name={} extra={} dd={} cd={}",
+                    ["exact", "zip64", "garbage", "zero"][o.size_mode as usize],
+                    o.name_len,
+                    extra_len,
+                    o.data_descriptor,
+                    o.central_dir
                 ),
             )
         }
@@ -498,6 +533,7 @@ pub fn edge_case(idx: u64, r: &mut Rng) -> GenFile {
         }
         11 => {
             let o = ZipOpts {
+                size_mode: 0,
                 name_len: 5,
                 extra_len: 0,
                 data_descriptor: false,
